@@ -183,6 +183,40 @@ pub fn c15(o: &Oracle, thorough: bool, seed: u64, rep: &Report) {
         }
     }
     rep.space("hands of sizes 2..7 over {52 cards, blank} with repetition (all 53^2 two-slot hands, seeded otherwise)", false, hands);
+    // sets built from text: every token is folded in -- short texts, texts longer than a deck, repeats, junk
+    let junk = ["", "A", "Zs", "1s", "A1", "10s", "XX", "AS2"];
+    let seps = [" ", "\t", "  ", "\n", "\u{a0}", " \r\n"];
+    let mut texts = 0u64;
+    for k in 0..(if thorough { 6000 } else { 900 }) {
+        let ntok = match k % 6 {
+            0 => k % 9,
+            1 => 50 + k % 8,
+            2 => 52,
+            3 => 53 + k % 40,
+            4 => 100 + k % 150,
+            _ => k % 60,
+        };
+        let mut toks: Vec<String> = vec![];
+        for t in 0..ntok {
+            let c = &o.cards[match k % 4 { 0 => rng.below(52) as usize, 1 => (t * 7) % 52, 2 => rng.below(3) as usize, _ => 51 - (t % 52) }];
+            if rng.below(7) == 0 {
+                toks.push(junk[rng.below(junk.len() as u64) as usize].to_string());
+            } else {
+                toks.push(if rng.below(2) == 0 { format!("{}{}", c.rank_char, c.suit_letter) } else { format!("{}{}", c.rank_char.to_ascii_lowercase(), c.suit_char) });
+            }
+        }
+        let toks: Vec<String> = toks.into_iter().filter(|t| !t.is_empty()).collect();
+        let text = toks.join(seps[k % seps.len()]);
+        let e = crate::props::text::split_ws(o, &text).iter().fold(0u64, |a, t| a | card_bit(o, crate::props::text::token_word(o, t)));
+        let ev = json!({"op":"parse_set","s":crate::observe::cps(&text)});
+        let got = observe(&ev);
+        if got["ok"] != json!(true) || got["res"] != limbs(e) {
+            viol(rep, ev, json!({"ok": true, "res": limbs(e)}), "set built from text is not exactly the distinct real cards among its tokens");
+        }
+        texts += 1;
+    }
+    rep.eval(texts);
+    rep.space("sets built from text: 0..250 tokens (card renderings, repeats, junk), six separators", false, texts);
     // structured and seeded sets, each peeled to exhaustion and beyond
     let all = o.all_bits;
     let over = o.overflow_bits;
